@@ -25,7 +25,8 @@ def isRelease : Op → Bool
 (`netbuf_read_wait`, `netbuf_write_consume`, `netbuf_write_write`) may have grown a buffer, consumed the
 reservation or queued the data before the allocation that failed -/
 def isAtomic : Op → Bool
-  | .read _ | .write _ | .accept _ | .connect _ _ _ | .nbrInit _ | .nbwInit _ | .nbwReserve _ _ | .http _ _ _ => true
+  | .read _ | .write _ | .accept _ | .connect _ _ _ | .nbrInit _ | .nbwInit _ | .nbwReserve _ _ | .http _ _ _
+  | .https _ _ _ _ => true
   | _ => false
 
 def fdOk (w : World) (fd : Nat) (isW : Bool) : Prop := ¬ netRegistered w.ev fd isW ∧ 24 * (fd + 1) ≤ EArray.SIZE_MAX
@@ -44,6 +45,7 @@ def Ready (w : World) : Op → Prop
   | .nbwConsume x len => ∃ wr ∈ w.writers, wr.id = x ∧ consumeOk wr len ∧ fdOk w wr.fd true
   | .nbwWrite x _ => ∃ wr ∈ w.writers, wr.id = x ∧ wr.reserved = false ∧ fdOk w wr.fd true
   | .http addrs _ s => (skipFailNow addrs ≠ [] → fdOk w s true) ∧ w.ev.timers.length < 2^32
+  | .https addrs _ s _ => (skipFailNow addrs ≠ [] → fdOk w s true) ∧ w.ev.timers.length < 2^32
   | _ => False
 
 /-- the object a release call names exists and may be released by its owner -/
@@ -98,6 +100,8 @@ theorem stepR_nbrInit (w : World) (fd : Nat) : stepR w (.nbrInit fd) = Run.ofOpt
 theorem stepR_nbwInit (w : World) (fd : Nat) : stepR w (.nbwInit fd) = Run.ofOpt (netbufWriteInit w fd) := rfl
 theorem stepR_http (w : World) (a : List AddrOutcome) (l s : Nat) :
     stepR w (.http a l s) = Run.ofOpt (httpRequest w a l s) := rfl
+theorem stepR_https (w : World) (a : List AddrOutcome) (l s hl : Nat) :
+    stepR w (.https a l s hl) = Run.ofOpt (httpsRequest w a l s hl) := rfl
 
 /-- the descriptor condition depends on the registry only -/
 theorem fdOk_congr {w w' : World} (h : registry w'.ev = registry w.ev) (fd : Nat) (b : Bool) :
@@ -283,6 +287,10 @@ theorem stepR_refused_fails (w : World) (op : Op) (h : Inv w) (hs : isRelease op
     rw [stepR_http] at hr ⊢; rw [ofOpt_snd] at hr
     obtain ⟨_, _, _, _, h5, _⟩ := httpRequest_spec w a l s h.toInv0
     exact ofOpt_fail.2 (h5 hr)
+  | https a l s hl =>
+    rw [stepR_https] at hr ⊢; rw [ofOpt_snd] at hr
+    obtain ⟨_, _, _, _, h5, _⟩ := httpsRequest_spec w a l s hl h.toInv0
+    exact ofOpt_fail.2 (h5 hr)
   | nbrInit fd =>
     rw [stepR_nbrInit] at hr ⊢; rw [ofOpt_snd] at hr
     apply ofOpt_fail.2
@@ -395,6 +403,9 @@ theorem fail_registry (w : World) (op : Op) (h : Inv w) (hf : (stepR w op).1 = .
   | http a l s =>
     rw [stepR_http] at hf ⊢; rw [ofOpt_snd]
     exact ((httpRequest_spec w a l s h.toInv0).2.2.1 (ofOpt_fail.1 hf)).registry
+  | https a l s hl =>
+    rw [stepR_https] at hf ⊢; rw [ofOpt_snd]
+    exact ((httpsRequest_spec w a l s hl h.toInv0).2.2.1 (ofOpt_fail.1 hf)).registry
   | nbrInit fd =>
     rw [stepR_nbrInit] at hf ⊢; rw [ofOpt_snd]
     exact ((netbufReadInit_spec w fd h.toInv0).2.2.1 (ofOpt_fail.1 hf)).1.registry
@@ -466,6 +477,9 @@ theorem stepR_fail_same (w : World) (op : Op) (h : Inv w) (ha : isAtomic op = tr
   | http a l s =>
     rw [stepR_http] at hf ⊢; rw [ofOpt_snd]
     exact (httpRequest_spec w a l s h.toInv0).2.2.1 (ofOpt_fail.1 hf)
+  | https a l s hl =>
+    rw [stepR_https] at hf ⊢; rw [ofOpt_snd]
+    exact (httpsRequest_spec w a l s hl h.toInv0).2.2.1 (ofOpt_fail.1 hf)
   | nbrInit fd =>
     rw [stepR_nbrInit] at hf ⊢; rw [ofOpt_snd]
     exact ((netbufReadInit_spec w fd h.toInv0).2.2.1 (ofOpt_fail.1 hf)).1
@@ -507,6 +521,10 @@ theorem stepR_fail_refused (w : World) (op : Op) (h : Inv w) (hrdy : Ready w op)
     rw [stepR_http] at hf ⊢; rw [ofOpt_snd]
     obtain ⟨_, _, _, _, _, h6⟩ := httpRequest_spec w a l s h.toInv0
     exact h6 (ofOpt_fail.1 hf) hrdy.1 hrdy.2
+  | https a l s hl =>
+    rw [stepR_https] at hf ⊢; rw [ofOpt_snd]
+    obtain ⟨_, _, _, _, _, h6⟩ := httpsRequest_spec w a l s hl h.toInv0
+    exact h6 (ofOpt_fail.1 hf) hrdy.1 hrdy.2
   | nbrInit fd =>
     rw [stepR_nbrInit] at hf ⊢; rw [ofOpt_snd]
     exact ((netbufReadInit_spec w fd h.toInv0).2.2.1 (ofOpt_fail.1 hf)).2
@@ -541,6 +559,7 @@ theorem ready_not_contract (w : World) (op : Op) (h : Inv w) (hrdy : Ready w op)
   | accept fd => exact ofOpt_ne_contract _
   | connect a t s => exact ofOpt_ne_contract _
   | http a l s => exact ofOpt_ne_contract _
+  | https a l s hl => exact ofOpt_ne_contract _
   | nbrInit fd => exact ofOpt_ne_contract _
   | nbwInit fd => exact ofOpt_ne_contract _
   | nbrWait r len =>
@@ -595,6 +614,8 @@ theorem ready_of_same {w w' : World} (hs : Same w w') (op : Op) (hrdy : Ready w 
   | connect a t s =>
     exact ⟨fun hne => (fdOk_congr hreg s true).2 (hrdy.1 hne), by rw [timers_congr hreg]; exact hrdy.2⟩
   | http a l s =>
+    exact ⟨fun hne => (fdOk_congr hreg s true).2 (hrdy.1 hne), by rw [timers_congr hreg]; exact hrdy.2⟩
+  | https a l s hl =>
     exact ⟨fun hne => (fdOk_congr hreg s true).2 (hrdy.1 hne), by rw [timers_congr hreg]; exact hrdy.2⟩
   | nbrInit fd => exact trivial
   | nbwInit fd => exact trivial
